@@ -414,7 +414,7 @@ package tchannel
 // facts cannot be carried through the connection's exchange-change callbacks.)
 //@ func (r *Relayer) failRelayItem(items *relayItems, id uint32, reason string, err error)
 //@   trusted
-//@   modifies allbut lazyCallReq, Frame, own, bytes
+//@   modifies allbut lazyCallReq, Frame, own, bytes, writableFragment
 //@   property C14
 
 // (reads the pending counter and the connection state: no effect except the
